@@ -34,6 +34,10 @@ SPEC = wbspec.spec(wbspec.sheet('S1', {
     'A2': dt.datetime(2024, 1, 1), 'B2': dt.datetime(2024, 2, 1),
     'C2': '=DATEDIF(A2,B2,"D")', 'D2': '=DATEDIF(A2,B2,"M")', 'E2': '=DATEDIF(A2,B2,"Y")', 'F2': '=DATEDIF(A2,B2,"YM")',
     'A3': dt.datetime(2024, 1, 31), 'B3': 1, 'C3': '=EDATE(A3,B3)', 'D3': '=EOMONTH(A3,B3)',
+    # the month count arriving otherwise than as an int in a cell: a blank cell (Z9 is never written: 0 months), an IF that selects the
+    # blank cell, a whole float made by arithmetic, another function's result
+    'E3': '=EDATE(A3,Z9)', 'F3': '=EOMONTH(A3,Z9)', 'G3': '=EDATE(A3,IF(B3>999,1,Z9))', 'H3': '=EDATE(A3,B3*1.0)', 'I3': '=EOMONTH(A3,ROUND(B3,0))',
+    'J3': '=EOMONTH(A3,IF(B3>999,1,Z9))', 'K3': '=EDATE(A3,SUM(B3,Z9))',
     'A5': '=TODAY()', 'B5': '=YEAR(TODAY())', 'C5': '=DAY(TODAY())',
 }))
 
@@ -186,6 +190,15 @@ def run_edate(shard, ctx):
             bad = [(n, o.brief(), e) for n, o, e in (('EDATE', outs[0], e1), ('EOMONTH', outs[1], e2)) if not outcome_matches(o, [e])]
             if bad:
                 report(r, ID, None, {'fn': 'EDATE/EOMONTH', 'start': s, 'months': k}, bad, None, monitor='calendar-closed-form')
+            if k in (0, 1, -1, 12) or (si + k) % 9 == 0:
+                cells_ = ['H3', 'I3', 'K3'] + (['E3', 'F3', 'G3', 'J3'] if k == 0 else [])
+                exp_ = {'H3': e1, 'I3': e2, 'K3': e1, 'E3': e1, 'F3': e2, 'G3': e1, 'J3': e2}
+                outs2 = book.values(0, cells_, [(0, 'A3', s), (0, 'B3', k)])
+                r.ev(len(cells_))
+                r.count('month_count_supplied_indirectly', len(cells_))
+                bad2 = [(SPEC['sheets'][0]['cells'][c_], o.brief(), exp_[c_]) for c_, o in zip(cells_, outs2) if not outcome_matches(o, [exp_[c_]])]
+                if bad2:
+                    report(r, ID, None, {'fn': 'EDATE/EOMONTH', 'start': s, 'months': k, 'how': 'month count supplied indirectly'}, bad2, None, monitor='calendar-closed-form')
             if s.day > 28:
                 nt += 1
             elif k % 12:
